@@ -234,6 +234,30 @@ pub fn check_periodic(p: &Pool, pattern: &[(usize, usize)], times: usize, rep: &
     judge_recs(&owned.iter().collect::<Vec<_>>(), &wit, rep)
 }
 
+/// n distinct aircraft each seen once, then each seen again in the same order, then the first one a third time
+pub fn fleet_history(n: usize, kind: &str) -> Vec<Rec> {
+    let mut owned: Vec<Rec> = Vec::new();
+    let mut add = |i: usize, pos: usize, owned: &mut Vec<Rec>| {
+        let a = 0x100000 + 0x000101 * i as u32;
+        if let Some(msg) = make(kind, a, 10 + (i % 7) as u32) {
+            let ts = 1000.25 + pos as f64;
+            let tm = TimedMessage { timestamp: ts, frame: vec![], message: Some(msg.clone()), metadata: vec![], decode_time: None };
+            let v = serde_json::to_value(&tm).unwrap_or(Value::Null);
+            let mut lv = BTreeSet::new();
+            leaves(&v, &mut lv);
+            owned.push(Rec { msg, ts, shown: v.get("icao24").and_then(|x| x.as_str()).map(String::from), leaves: lv });
+        }
+    };
+    for i in 0..n {
+        add(i, i, &mut owned);
+    }
+    for i in 0..n {
+        add(i, n + i, &mut owned);
+    }
+    add(0, 2 * n, &mut owned);
+    owned
+}
+
 fn judge_recs(recs: &[&Rec], witness: &Value, rep: &Report) -> usize {
     let table = match run_table(recs) {
         Ok(t) => t,
@@ -459,6 +483,25 @@ pub fn run(ctx: &Ctx, rep: &Report) {
         nontriv += c;
         rep.part("periodic long histories (patterns of 1-3 records repeated up to 300 times)", c, json!({"patterns": pats.len()}));
     }
+    // large fleets: N distinct aircraft each seen once (DF11, DF4 or an airborne position), then each seen again in
+    // the same order, then the first one a third time (caps on the table size, eviction)
+    {
+        let mut c = 0u64;
+        for n in [5usize, 64, 300, 1100, 2100] {
+            if !ctx.thorough() && n > 1100 {
+                continue;
+            }
+            for kind in ["DF11", "DF4", "DF17:05+pos"] {
+                let owned = fleet_history(n, kind);
+                let wit = json!({"fleet": n, "kind": kind});
+                judge_recs(&owned.iter().collect::<Vec<_>>(), &wit, rep);
+                c += 1;
+            }
+        }
+        total += c;
+        nontriv += c;
+        rep.part("large fleets (up to 1100 aircraft, thorough 2100)", c, json!({}));
+    }
     let eq = pool(core_kinds(), d_all, true);
     let mut t3 = 0;
     for len in 2..=d_all {
@@ -487,6 +530,15 @@ pub fn run(ctx: &Ctx, rep: &Report) {
 }
 
 pub fn replay(w: &Value, rep: &Report) {
+    if let Some(n) = w.get("fleet").and_then(|x| x.as_u64()) {
+        let owned = fleet_history(n as usize, w["kind"].as_str().unwrap_or("DF11"));
+        judge_recs(&owned.iter().collect::<Vec<_>>(), w, rep);
+        rep.trans(1);
+        rep.state(1);
+        rep.sample(w.clone());
+        rep.outcome("replayed", 1);
+        return;
+    }
     if w["periodic"].as_bool() == Some(true) {
         let per = pool(core_kinds(), 10, false);
         let pat: Vec<(usize, usize)> = w["pattern"]
